@@ -338,6 +338,7 @@ Section Txt.
     eexists. split; [apply (export_ok (d0 :: l') 0); [discriminate|exact Hlen]|].
     unfold read_data_from_txt.
     rewrite read_header_ok by exact Hnames.
-    cbn [seq map loadtxt_unpack filter combine fold_left dset fst snd]. reflexivity.
+    cbn [seq map loadtxt_unpack filter combine fold_left dset fst snd].
+    destruct (map header l'); reflexivity.
   Qed.
 End Txt.
